@@ -248,6 +248,19 @@ pub fn set_boom(stage: u8) {
     BOOM_AT.with(|b| b.set(stage));
 }
 
+thread_local! {
+    /// appended to the panic message so that a thread can recognise its own panic
+    pub static BOOM_TAG: std::cell::Cell<u64> = const { std::cell::Cell::new(0) };
+}
+
+pub fn set_boom_tag(tag: u64) {
+    BOOM_TAG.with(|b| b.set(tag));
+}
+
+fn boom_tag() -> u64 {
+    BOOM_TAG.with(|b| b.get())
+}
+
 #[derive(Debug)]
 pub struct BoomFn;
 
@@ -260,7 +273,7 @@ impl FunctionDefinition for BoomFn {
         _ctx: Option<&mut FunctionDefinitionContext>,
     ) -> Result<(), FunctionParamError> {
         if BOOM_AT.with(|b| b.get()) == 1 {
-            panic!("kaboom-in-check_param");
+            panic!("kaboom-in-check_param#{}#", boom_tag());
         }
         if next_param.get_type() != Type::Bytes {
             return Err(FunctionParamError::TypeMismatch(TypeMismatchError {
@@ -286,11 +299,21 @@ impl FunctionDefinition for BoomFn {
         _ctx: Option<FunctionDefinitionContext>,
     ) -> CompiledFunction {
         if BOOM_AT.with(|b| b.get()) == 2 {
-            panic!("kaboom-in-compile");
+            panic!("kaboom-in-compile#{}#", boom_tag());
         }
         Box::new(|args| {
             if BOOM_AT.with(|b| b.get()) == 3 {
-                panic!("kaboom-in-execute");
+                // a destructor that runs while the panic unwinds (legal user code)
+                struct SlowUnwind;
+                impl Drop for SlowUnwind {
+                    fn drop(&mut self) {
+                        for _ in 0..6 {
+                            std::thread::yield_now();
+                        }
+                    }
+                }
+                let _g = SlowUnwind;
+                panic!("kaboom-in-execute#{}#", boom_tag());
             }
             args.next().and_then(|a| a.ok())
         })
